@@ -466,6 +466,137 @@ theorem findStop_congr {seq seq' : Bytes} {stops : List Bytes}
     · rfl
     · exact ih (fun t' ht' => h t' (List.mem_cons_of_mem _ ht'))
 
+/-! the repaired variant -/
+
+theorem earliestAux_sound (seq : Bytes) (S : List Bytes) : ∀ (stops : List Bytes) (best : Option (Nat × Bytes)),
+    (∀ t ∈ stops, t ∈ S) → (∀ j s, best = some (j, s) → indexOf s seq = some j ∧ s ∈ S) →
+    ∀ j s, earliestAux seq stops best = some (j, s) → indexOf s seq = some j ∧ s ∈ S := by
+  intro stops
+  induction stops with
+  | nil => intro best _ hb j s h; exact hb j s h
+  | cons t ts ih =>
+    intro best hS hb
+    unfold earliestAux
+    apply ih _ (fun t' ht' => hS t' (List.mem_cons_of_mem _ ht'))
+    intro j s h
+    cases hi : indexOf t seq with
+    | none => rw [hi] at h; exact hb j s h
+    | some i =>
+      rw [hi] at h
+      cases best with
+      | none => simp at h; obtain ⟨rfl, rfl⟩ := h; exact ⟨hi, hS _ (List.mem_cons_self ..)⟩
+      | some b =>
+        obtain ⟨j', s'⟩ := b
+        simp only at h
+        split at h
+        · simp at h; obtain ⟨rfl, rfl⟩ := h; exact ⟨hi, hS _ (List.mem_cons_self ..)⟩
+        · exact hb j s h
+
+theorem earliestAux_none (seq : Bytes) : ∀ (stops : List Bytes) (best : Option (Nat × Bytes)),
+    earliestAux seq stops best = none → best = none ∧ ∀ t ∈ stops, indexOf t seq = none := by
+  intro stops
+  induction stops with
+  | nil => intro best h; exact ⟨h, by simp⟩
+  | cons t ts ih =>
+    intro best h
+    unfold earliestAux at h
+    obtain ⟨h1, h2⟩ := ih _ h
+    cases hi : indexOf t seq with
+    | none =>
+      rw [hi] at h1
+      exact ⟨h1, fun t' ht' => by
+        rcases List.mem_cons.mp ht' with rfl | h'
+        · exact hi
+        · exact h2 t' h'⟩
+    | some i =>
+      rw [hi] at h1
+      cases best with
+      | none => simp at h1
+      | some b => obtain ⟨j', s'⟩ := b; simp only at h1; split at h1 <;> cases h1
+
+theorem earliestAux_min (seq : Bytes) : ∀ (stops : List Bytes) (best : Option (Nat × Bytes)) (i : Nat) (s : Bytes),
+    earliestAux seq stops best = some (i, s) →
+    (∀ j s', best = some (j, s') → i ≤ j) ∧ ∀ t ∈ stops, ∀ j, indexOf t seq = some j → i ≤ j := by
+  intro stops
+  induction stops with
+  | nil => intro best i s h; exact ⟨fun j s' hb => (by rw [hb] at h; cases h; exact Nat.le_refl _), by simp⟩
+  | cons t ts ih =>
+    intro best i s h
+    unfold earliestAux at h
+    obtain ⟨h1, h2⟩ := ih _ i s h
+    cases hi : indexOf t seq with
+    | none =>
+      rw [hi] at h1
+      refine ⟨h1, fun t' ht' j hj => ?_⟩
+      rcases List.mem_cons.mp ht' with rfl | h'
+      · rw [hi] at hj; cases hj
+      · exact h2 t' h' j hj
+    | some k =>
+      rw [hi] at h1
+      cases best with
+      | none =>
+        have := h1 k t rfl
+        refine ⟨fun _ _ hb => (by cases hb), fun t' ht' j hj => ?_⟩
+        rcases List.mem_cons.mp ht' with rfl | h'
+        · rw [hi] at hj; cases hj; exact this
+        · exact h2 t' h' j hj
+      | some b =>
+        obtain ⟨j', s'⟩ := b
+        simp only at h1
+        by_cases hlt : k < j'
+        · rw [if_pos hlt] at h1
+          have := h1 k t rfl
+          refine ⟨fun j s'' hb => (by cases hb; omega), fun t' ht' j hj => ?_⟩
+          rcases List.mem_cons.mp ht' with rfl | h'
+          · rw [hi] at hj; cases hj; exact this
+          · exact h2 t' h' j hj
+        · rw [if_neg hlt] at h1
+          have := h1 j' s' rfl
+          refine ⟨fun j s'' hb => (by cases hb; exact this), fun t' ht' j hj => ?_⟩
+          rcases List.mem_cons.mp ht' with rfl | h'
+          · rw [hi] at hj; cases hj; omega
+          · exact h2 t' h' j hj
+
+theorem findStopV_some {pinned : Bool} {seq s : Bytes} {stops : List Bytes}
+    (h : findStopV pinned seq stops = some s) : s ∈ stops ∧ Occurs s seq := by
+  unfold findStopV at h
+  split at h
+  · exact findStop_some h
+  · unfold findStopEarliest at h
+    cases he : earliestAux seq stops none with
+    | none => rw [he] at h; cases h
+    | some b =>
+      obtain ⟨j, s'⟩ := b
+      rw [he] at h; simp at h; subst h
+      obtain ⟨hi, hm⟩ := earliestAux_sound seq stops stops none (fun _ h => h) (by simp) j s' he
+      exact ⟨hm, (contains_iff seq s').mp (by simp [contains, hi])⟩
+
+theorem findStopV_none {pinned : Bool} {seq : Bytes} {stops : List Bytes}
+    (h : findStopV pinned seq stops = none) : ∀ t ∈ stops, ¬ Occurs t seq := by
+  unfold findStopV at h
+  split at h
+  · exact findStop_none h
+  · unfold findStopEarliest at h
+    cases he : earliestAux seq stops none with
+    | some b => rw [he] at h; simp at h
+    | none =>
+      intro t ht ho
+      have := (earliestAux_none seq stops none he).2 t ht
+      obtain ⟨i, hi⟩ := ho.indexOf
+      rw [hi] at this; cases this
+
+/-- the repaired `FindStop` returns a listed stop whose first occurrence is the earliest of all -/
+theorem findStopEarliest_spec {seq s : Bytes} {stops : List Bytes} (h : findStopEarliest seq stops = some s) :
+    s ∈ stops ∧ ∃ i, indexOf s seq = some i ∧ ∀ t ∈ stops, ∀ j, indexOf t seq = some j → i ≤ j := by
+  unfold findStopEarliest at h
+  cases he : earliestAux seq stops none with
+  | none => rw [he] at h; cases h
+  | some b =>
+    obtain ⟨i, s'⟩ := b
+    rw [he] at h; simp at h; subst h
+    obtain ⟨hi, hm⟩ := earliestAux_sound seq stops stops none (fun _ h => h) (by simp) i s' he
+    exact ⟨hm, i, hi, (earliestAux_min seq stops none i s' he).2⟩
+
 theorem stopSuffix_false {seq : Bytes} {stops : List Bytes} (h : containsStopSuffix seq stops = false) :
     ∀ t ∈ stops, ∀ i, 1 ≤ i → i ≤ t.length → ¬ (t.take i <:+ seq) := by
   intro t ht i h1 hi hs
@@ -608,20 +739,20 @@ def St.push (st : St) (p : Bytes) : St :=
   { st with numPredicted := st.numPredicted + 1, pending := st.pending ++ [p], gen := st.gen ++ [p] }
 
 /-- the three outcomes of the loop body for a piece -/
-theorem stepPiece_cases (stops : List Bytes) (st : St) (p : Bytes) :
+theorem stepPiece_cases (pinned : Bool) (stops : List Bytes) (st : St) (p : Bytes) :
     let st1 := st.push p
     let seq := st1.pending.flatten
-    (∃ s, findStop seq stops = some s ∧
-        stepPiece stops st p =
+    (∃ s, findStopV pinned seq stops = some s ∧
+        stepPiece pinned stops st p =
           ({ st1 with pending := (truncateStop st1.pending s).1 }).finish .stop (.stopString s)) ∨
-    (findStop seq stops = none ∧ (containsStopSuffix seq stops = true ∨ incompleteUnicode seq = true) ∧
-        stepPiece stops st p = st1) ∨
-    (findStop seq stops = none ∧ containsStopSuffix seq stops = false ∧ incompleteUnicode seq = false ∧
-        stepPiece stops st p = st1.flush) := by
+    (findStopV pinned seq stops = none ∧ (containsStopSuffix seq stops = true ∨ incompleteUnicode seq = true) ∧
+        stepPiece pinned stops st p = st1) ∨
+    (findStopV pinned seq stops = none ∧ containsStopSuffix seq stops = false ∧ incompleteUnicode seq = false ∧
+        stepPiece pinned stops st p = st1.flush) := by
   intro st1 seq
   unfold stepPiece
   simp only
-  cases hf : findStop (st.pending ++ [p]).flatten stops with
+  cases hf : findStopV pinned (st.pending ++ [p]).flatten stops with
   | some s => left; exact ⟨s, hf, rfl⟩
   | none =>
     right
@@ -633,17 +764,17 @@ theorem stepPiece_cases (stops : List Bytes) (st : St) (p : Bytes) :
       | false => right; exact ⟨hf, hs, hi, rfl⟩
 
 /-- induction over the loop: `Inv` holds between iterations, `Post` of every way to leave it -/
-theorem run_ind {limit : Int} {stops : List Bytes} {Inv Post : St → Prop}
+theorem run_ind {pinned : Bool} {limit : Int} {stops : List Bytes} {Inv Post : St → Prop}
     (hrun : ∀ st, Inv st → ¬ (limit > 0 ∧ (st.numPredicted : Int) ≥ limit) → Post st)
     (hlim : ∀ st, Inv st → (limit > 0 ∧ (st.numPredicted : Int) ≥ limit) →
       Post (st.finish .length .limit))
     (heos : ∀ st, Inv st → ¬ (limit > 0 ∧ (st.numPredicted : Int) ≥ limit) →
       Post (({ st with numPredicted := st.numPredicted + 1 }).finish .stop .eos))
     (hstop : ∀ st p, Inv st → ¬ (limit > 0 ∧ (st.numPredicted : Int) ≥ limit) →
-      (stepPiece stops st p).done.isSome = true → Post (stepPiece stops st p))
+      (stepPiece pinned stops st p).done.isSome = true → Post (stepPiece pinned stops st p))
     (hcont : ∀ st p, Inv st → ¬ (limit > 0 ∧ (st.numPredicted : Int) ≥ limit) →
-      (stepPiece stops st p).done.isSome = false → Inv (stepPiece stops st p)) :
-    ∀ evs st, Inv st → Post (run limit stops st evs) := by
+      (stepPiece pinned stops st p).done.isSome = false → Inv (stepPiece pinned stops st p)) :
+    ∀ evs st, Inv st → Post (run pinned limit stops st evs) := by
   intro evs
   induction evs with
   | nil =>
@@ -729,7 +860,7 @@ theorem post_finish_flush {stops : List Bytes} {st : St} (hi : Inv stops st) (r 
     of valid UTF-8 -/
 theorem step_main {stops : List Bytes} (hok : StopsOk stops) {st : St} (p : Bytes)
     (hi : Inv stops st) (hvp : ValidPrefix (st.genText ++ p)) :
-    let st' := stepPiece stops st p
+    let st' := stepPiece true stops st p
     (st'.done.isSome = true → Post stops st') ∧ (st'.done.isSome = false → Inv stops st') := by
   intro st'
   have hsplit : st.gen.flatten = st.out.flatten ++ st.pending.flatten := hi.split
@@ -753,7 +884,7 @@ theorem step_main {stops : List Bytes} (hok : StopsOk stops) {st : St} (p : Byte
     have hheld : Held stops (st.out.flatten ++ st.pending.flatten) st.pending.flatten.length := by
       rw [← hsplit]; exact hi.held
     exact occurrence_in_pending ht hno hheld h
-  rcases stepPiece_cases stops st p with ⟨s, hs, h⟩ | ⟨hnone, _, h⟩ | ⟨hnone, hsuf, hinc, h⟩
+  rcases stepPiece_cases true stops st p with ⟨s, hs, h⟩ | ⟨hnone, _, h⟩ | ⟨hnone, hsuf, hinc, h⟩
   · -- a stop was found
     have hst' : st' = _ := h
     rw [hst']
@@ -875,24 +1006,24 @@ theorem step_main {stops : List Bytes} (hok : StopsOk stops) {st : St} (p : Byte
       have := suffix_of_append_short hs' (by rw [List.length_take, List.length_append]; omega)
       exact stopSuffix_false hsuf t ht i h1 hile (by rw [hseq]; exact this)
 
-theorem stepPiece_gen (stops : List Bytes) (st : St) (p : Bytes) :
-    (stepPiece stops st p).gen = st.gen ++ [p] := by
-  rcases stepPiece_cases stops st p with ⟨s, _, h⟩ | ⟨_, _, h⟩ | ⟨_, _, _, h⟩
+theorem stepPiece_gen (pinned : Bool) (stops : List Bytes) (st : St) (p : Bytes) :
+    (stepPiece pinned stops st p).gen = st.gen ++ [p] := by
+  rcases stepPiece_cases pinned stops st p with ⟨s, _, h⟩ | ⟨_, _, h⟩ | ⟨_, _, _, h⟩
   · rw [h, finish_gen]; rfl
   · rw [h]; rfl
   · rw [h, flush_gen]; rfl
 
-theorem stepPiece_genText (stops : List Bytes) (st : St) (p : Bytes) :
-    (stepPiece stops st p).genText = st.genText ++ p := by
-  show (stepPiece stops st p).gen.flatten = st.gen.flatten ++ p
+theorem stepPiece_genText (pinned : Bool) (stops : List Bytes) (st : St) (p : Bytes) :
+    (stepPiece pinned stops st p).genText = st.genText ++ p := by
+  show (stepPiece pinned stops st p).gen.flatten = st.gen.flatten ++ p
   rw [stepPiece_gen]; simp
 
 /-- **The whole run.** For every script, every limit and every list of valid non-empty stops: if
     the text generated up to the terminating event is a prefix of valid UTF-8, the final state
     satisfies `Post`. -/
 theorem run_main {stops : List Bytes} (hok : StopsOk stops) (limit : Int) (evs : List Ev) :
-    ValidPrefix (run limit stops init evs).genText → Post stops (run limit stops init evs) := by
-  refine run_ind (limit := limit) (stops := stops)
+    ValidPrefix (run true limit stops init evs).genText → Post stops (run true limit stops init evs) := by
+  refine run_ind (pinned := true) (limit := limit) (stops := stops)
     (Inv := fun st => ValidPrefix st.genText → Inv stops st)
     (Post := fun f => ValidPrefix f.genText → Post stops f) ?_ ?_ ?_ ?_ ?_ evs init
     (fun _ => inv_init stops hok)
